@@ -272,6 +272,16 @@ func (g *G) lit(t *Ty) string {
 	panic("lit " + t.K)
 }
 
+// smallConst returns a constant expression over small literals whose value (and every prefix of it) is a small
+// non-negative number: Go folds it exactly, so does any correct implementation, and no operand type can overflow.
+func (g *G) smallConst(t *Ty) string {
+	g.meta.feat("constexpr")
+	if t.K == "float64" {
+		return rx.Pick(g.rt, "fconst", "0.5 + 1", "1.5*2", "2.5 - 0.5", "1 + 2", "0.25 + 0.25 + 0.5")
+	}
+	return rx.Pick(g.rt, "iconst", "1 + 2", "2 - 1", "1 + 1", "10 - 1", "2*3", "1 + 2 - 3", "3 - 2 + 1", "1 + 2 + 3", "2*2 + 1", "7 - 3 - 2")
+}
+
 func litLen(s string) int {
 	// number of elements of a slice literal produced by lit (top-level commas + 1), 0 for {}
 	i := strings.Index(s, "{")
@@ -791,7 +801,11 @@ func (g *G) assignStmt() {
 					g.line("%s %s (%s*%s + 1.5)", v.Name, op, g.operand(t, 0), g.operand(t, 0))
 				}
 			default:
-				g.line("%s %s %s", v.Name, op, g.expr(t, 2))
+				if (op == "+=" || op == "-=" || op == "*=") && rx.Chance(g.rt, "constrhs", 1, 4) {
+					g.line("%s %s %s", v.Name, op, g.smallConst(t))
+				} else {
+					g.line("%s %s %s", v.Name, op, g.expr(t, 2))
+				}
 			}
 		default:
 			g.meta.feat("incdec")
@@ -826,7 +840,12 @@ func (g *G) assignStmt() {
 		case 1:
 			if v.MinLen > 0 {
 				g.meta.feat("elemset")
-				g.line("%s[%d] = %s", v.Name, rx.Uniform(g.rt, v.MinLen, "setidx"), g.expr(t.Elem, 2))
+				if v.MinLen >= 2 && rx.Chance(g.rt, "constidx", 1, 4) {
+					g.meta.feat("constexpr")
+					g.line("%s[%s] = %s", v.Name, rx.Pick(g.rt, "cidx", "0 + 1", "2 - 1", "1 + 1 - 1", "1 - 1"), g.expr(t.Elem, 2))
+				} else {
+					g.line("%s[%d] = %s", v.Name, rx.Uniform(g.rt, v.MinLen, "setidx"), g.expr(t.Elem, 2))
+				}
 			} else {
 				g.line("%s = append(%s, %s)", v.Name, v.Name, g.expr(t.Elem, 1))
 			}
@@ -943,7 +962,13 @@ func (g *G) forStmt() {
 		g.meta.feat("for3")
 		i := g.fresh("i")
 		post := i + "++"
-		switch rx.Uniform(g.rt, 4, "post") {
+		switch rx.Uniform(g.rt, 6, "post") {
+		case 4:
+			g.meta.feat("constexpr")
+			post = i + " += 2 - 1"
+		case 5:
+			g.meta.feat("constexpr")
+			post = i + " += 1 + 1"
 		case 1:
 			post = i + " += 2"
 		case 2:
